@@ -124,14 +124,88 @@ fn thread_oracle(c: &ThreadCase) -> Verdict {
     Ok(CaseInfo::new(c.threads >= 2).class(if c.stalled_at.is_some() { "stalled_clock" } else { "real_clock" }))
 }
 
+/// Rounds in which the clock is *ahead* of the last timestamp (low request rate) and ticks while a
+/// handful of threads take their first reading together: every round each thread asks once.
+#[derive(Debug, Clone, Serialize, Deserialize)]
+pub struct RoundsCase {
+    pub threads: usize,
+    pub rounds: u32,
+    /// the clock advances by this much between rounds (> threads: the clock stays ahead)
+    pub gap: i64,
+    /// spin iterations between releasing the threads and the tick inside the round
+    pub tick_after_spins: u32,
+}
+
+fn rounds_oracle(c: &RoundsCase) -> Verdict {
+    use std::sync::atomic::{AtomicI64, AtomicU32, AtomicUsize, Ordering};
+    let _g = CLOCK_LOCK.lock().unwrap_or_else(|e| e.into_inner());
+    let mut now = 1_800_000_000_000_000i64;
+    clock::set(Some(now));
+    let g = Arc::new(MonotonicTimestampGenerator::new().without_warnings());
+    let round = Arc::new(AtomicU32::new(0));
+    let done = Arc::new(AtomicUsize::new(0));
+    let slots: Arc<Vec<AtomicI64>> = Arc::new((0..c.threads).map(|_| AtomicI64::new(0)).collect());
+    let hs: Vec<_> = (0..c.threads)
+        .map(|ti| {
+            let (g, round, done, slots, rounds) = (Arc::clone(&g), Arc::clone(&round), Arc::clone(&done), Arc::clone(&slots), c.rounds);
+            std::thread::spawn(move || {
+                for r in 1..=rounds {
+                    while round.load(Ordering::Acquire) < r {
+                        std::hint::spin_loop();
+                    }
+                    slots[ti].store(g.next_timestamp(), Ordering::Release);
+                    done.fetch_add(1, Ordering::AcqRel);
+                }
+            })
+        })
+        .collect();
+    let mut prev_max = i64::MIN;
+    let mut verdict: Result<(), (String, String)> = Ok(());
+    let mut ticked_rounds = 0u32;
+    for r in 1..=c.rounds {
+        now += c.gap;
+        clock::set(Some(now));
+        done.store(0, Ordering::Release);
+        round.store(r, Ordering::Release);
+        for _ in 0..c.tick_after_spins {
+            std::hint::spin_loop();
+        }
+        now += 1;
+        clock::set(Some(now));
+        if done.load(Ordering::Acquire) < c.threads {
+            ticked_rounds += 1;
+        }
+        while done.load(Ordering::Acquire) < c.threads {
+            std::hint::spin_loop();
+        }
+        if verdict.is_ok() {
+            let mut vals: Vec<i64> = slots.iter().map(|s| s.load(Ordering::Acquire)).collect();
+            vals.sort_unstable();
+            if let Some(w) = vals.windows(2).find(|w| w[0] == w[1]) {
+                verdict = Err(bad("duplicate_timestamp", format!("round {r}: timestamp {} handed out twice; the {} threads got {vals:?} with the clock at {}..{}", w[0], c.threads, now - 1, now)));
+            } else if vals[0] <= prev_max {
+                verdict = Err(bad("not_increasing", format!("round {r}: {} handed out after {prev_max} (previous round)", vals[0])));
+            }
+            prev_max = *vals.last().unwrap();
+        }
+    }
+    for h in hs {
+        let _ = h.join();
+    }
+    clock::set(None);
+    verdict?;
+    Ok(CaseInfo::new(ticked_rounds > 0).class(format!("threads{}", c.threads)).class_if(ticked_rounds > c.rounds / 10, "clock_ticked_mid_round_often"))
+}
+
 pub fn run(ctx: &Ctx, rep: &mut Report) {
-    rep.rule = "Scripted-clock sequences (one generator, generated clock readings that advance, stall, repeat, step back by 1 us..1 h, or fall before the epoch): each returned timestamp must exceed the previous one. Thread cases: N threads x M calls on one generator with the clock stalled (maximal compare-exchange contention) or real; all values pairwise distinct and increasing per thread. Non-trivial = a sequence with a repeated or backwards reading / a case with >= 2 threads.".into();
+    rep.rule = "Scripted-clock sequences (one generator, generated clock readings that advance, stall, repeat, step back by 1 us..1 h, or fall before the epoch): each returned timestamp must exceed the previous one. Thread cases: N threads x M calls on one generator with the clock stalled (maximal compare-exchange contention) or real; all values pairwise distinct and increasing per thread. Rounds: the clock is ahead of the last timestamp (low request rate) and ticks by one microsecond while 3..8 threads each take one timestamp together (tens of thousands of rounds per configuration, the tick placed 0..150 spins after the release); values of a round pairwise distinct and above the previous round's. Non-trivial = a sequence with a repeated or backwards reading / a case with >= 2 threads.".into();
     rep.trusted_base = vec!["scripted clock substituted for SystemTime::now() inside compute_next (hook)".into()];
     rep.assumptions = vec!["interleavings inside the load/compute/compare-exchange loop are reached by real parallelism only, not enumerated".into()];
     if let Some((check, case_v)) = &ctx.replay {
         match check.as_str() {
             "sequence" => replay_case::<SeqCase, _>(rep, check, case_v, seq_oracle),
             "threads" => replay_case::<ThreadCase, _>(rep, check, case_v, thread_oracle),
+            "rounds" => replay_case::<RoundsCase, _>(rep, check, case_v, rounds_oracle),
             other => {
                 if !super::c09_e2e::replay(rep, other, case_v) {
                     std::process::exit(2)
@@ -157,6 +231,18 @@ pub fn run(ctx: &Ctx, rep: &mut Report) {
         }
     }
     finish_direct(rep, "threads", st, fails, false);
+    // clock ahead of `last`, ticking while several threads take a reading together
+    {
+        let mut st = Stats::default();
+        let mut fails = vec![];
+        let rounds = ctx.tier.pick(60_000u32, 1_500_000);
+        for threads in [3usize, 4, 6, 8] {
+            for tick_after_spins in [0u32, 5, 20, 60, 150] {
+                eval_direct(&mut st, &mut fails, &RoundsCase { threads, rounds, gap: 1000, tick_after_spins }, rounds_oracle);
+            }
+        }
+        finish_direct(rep, "rounds", st, fails, false);
+    }
     // the wire clause: through a Session with the generator configured (real clock)
     scylla::verif::clock::set(None);
     super::c09_e2e::run_timestamps(ctx, rep);
